@@ -297,7 +297,10 @@ def modelled_workloads(rng, tier):
     w += ["ains %d %d" % p for p in [(32, 1), (31, 0), (32, 40), (64, 64), (64, 3), (33, 32), (0, 0)]]
     w += ["ashrink %d %d" % p for p in [(5, 0), (32, 0), (33, 0), (0, 0), (5, 40), (40, 30), (31, 1), (5, 27)]]
     w += ["lhnew %d" % n for n in (1, 16, 1000)]
-    w += ["lhresize %d %d %d" % p for p in [(16, 5, 32), (16, 0, 4), (16, 10, 64), (16, 5, 16), (16, 3, 8), (32, 20, 64)]]
+    w += ["lhresize %d %d %d" % p for p in [(16, 5, 32), (16, 0, 4), (16, 10, 64), (16, 5, 16), (16, 3, 8), (32, 20, 64),
+                                            # a requested size smaller than the contents need: the table being filled grows itself
+                                            # on the way (nested resize), and that may fail too (round-7 seed C08-12)
+                                            (16, 10, 4), (16, 9, 2), (32, 20, 8)]]
     w += ["lhins %d %d" % p for p in [(16, 10), (16, 11), (16, 5), (1, 0), (1, 1), (2, 1), (2, 2), (4, 2), (4, 3), (32, 21), (32, 22), (50, 32), (50, 33)]]
     w += ["new o 0", "new b 0", "new i 0", "new f 0"] + ["new a %d" % n for n in (0, 1, 32, -1)]
     w += ["new s %d" % n for n in (0, 1, 7, 8, 9, 100)] + ["new d %d" % n for n in (0, 5, 30)]
